@@ -8,5 +8,7 @@ CONSTANTS
   CallbackSubmits = TRUE
   UserShutdown = FALSE
   SpawnUnderLock = TRUE
+  MaxCrash = 0
+  RecheckAfterWait = TRUE
 INVARIANT IdsGrow
 
